@@ -80,7 +80,7 @@ def obligations(tier):
         ob = C12_e2.delta(wide, n, wsel=ws, strict=0, timeout=900, tag='/cut-at-every-length')
         ob.name = 'delta-cut/' + ob.name[len('delta-dec/'):]
         ob.defines = list(ob.defines) + ['-DVCUT=1']; ob.fork_max = 1024; ob.max_paths = 400000
-        ob.bounds += '; the stream is CUT at every length k < its size (exact-size heap object); no value assertions'
+        ob.bounds += '; the stream is CUT at every length k <= its size (exact-size heap object; k = size is the complete stream); no value assertions'
         o.append(ob)
     for ng in C13_e1.nesting_guard(tier):
         ng.name = 'thrift-' + ng.name
